@@ -530,7 +530,32 @@ NATIVE_TAIL_BLOCK_UNITS = [
     "(channel/send s 1)", "(c16y-spin 300000 0)", "(#%gc-collect)", "(channel/send s 1)",
     "(thread-join! t)",
 ]
-CORPUS = [("blocking-recv-tail-called-from-native-code", NATIVE_TAIL_BLOCK_UNITS, lambda v: v == "I3"),("F18-concurrent-global-updates", F18_UNITS, lambda v: v == "'\"ok\""),
+# blocking built-ins reached by a TAIL call THROUGH A VALUE (a parameter / captured variable holding the built-in,
+# call-with-values consumer, a rest-parameter combinator the native tier skips): the interpreter's tail call of a
+# built-in value must publish the thread at a safepoint like every other call of a blocking built-in
+def value_tail_block_units(kind):
+    pre = ("(define ch (channels/new)) (define s (channels-sender ch)) (define r (channels-receiver ch))\n"
+           "(define (c16v-spin n acc) (if (= n 0) acc (c16v-spin (- n 1) (+ acc 1))))\n")
+    if kind == "parameter":
+        pre += "(define (call-on f x) (f x))\n(define (consume n acc) (if (= n 0) acc (consume (- n 1) (+ acc (call-on channel/recv r)))))"
+    elif kind == "composed":
+        pre += ("(define (compose2 g f) (lambda (x) (g (f x))))\n(define recv+0 (compose2 (lambda (v) (+ v 0)) channel/recv))\n"
+                "(define (id-call f) (lambda (x) (f x)))\n(define recv* (id-call channel/recv))\n"
+                "(define (consume n acc) (if (= n 0) acc (consume (- n 1) (+ acc (recv* r)))))")
+    elif kind == "rest-combinator":
+        pre += "(define (call-on* f . xs) (f (car xs)))\n(define (consume n acc) (if (= n 0) acc (consume (- n 1) (+ acc (call-on* channel/recv r)))))"
+    else:   # call-with-values consumer
+        pre += "(define (consume n acc) (if (= n 0) acc (consume (- n 1) (+ acc (call-with-values (lambda () r) channel/recv)))))"
+    return [pre, "(define t (spawn-native-thread (lambda () (consume 3 0))))",
+            "(c16v-spin 300000 0)", "(define a 1)", "(channel/send s 1)", "(c16v-spin 300000 0)", "(define b 2)",
+            "(channel/send s 1)", "(c16v-spin 300000 0)", "(#%gc-collect)", "(channel/send s 1)", "(thread-join! t)"]
+
+
+CORPUS = [("blocking-recv-tail-called-through-a-parameter", value_tail_block_units("parameter"), lambda v: v == "I3"),
+          ("blocking-recv-tail-called-through-a-captured-variable", value_tail_block_units("composed"), lambda v: v == "I3"),
+          ("blocking-recv-tail-called-through-a-rest-combinator", value_tail_block_units("rest-combinator"), lambda v: v == "I3"),
+          ("blocking-recv-as-call-with-values-consumer", value_tail_block_units("cwv"), lambda v: v == "I3"),
+          ("blocking-recv-tail-called-from-native-code", NATIVE_TAIL_BLOCK_UNITS, lambda v: v == "I3"),("F18-concurrent-global-updates", F18_UNITS, lambda v: v == "'\"ok\""),
           ("F23-native-box-allocation-vs-collection", F23_UNITS, lambda v: v.count("done") == 6),
           ("blocking-recv-in-native-code", NATIVE_BLOCK_UNITS, lambda v: v == "I40")]
 
